@@ -244,7 +244,8 @@ PROPS = {
         "level": "other",
         "verus": [("convert", ["convert_amount", "PriceRepository::convert_single", "PriceRepository::new"]), ("query", ["Ledger::balance", "Balance::round"]), ("determinism", ["callsite:Ledger::balance.conversion_order", "Amount::sorted_values"])],
         "kani": {"quick": [], "thorough": []},
-        "family": ("c10", {"quick": [], "thorough": []}),
+        # the report goes through the price search, so the C09 family is run for C10 as well (seed C10-k: a search change seen only through `balance -X`)
+        "family": [("c10", {"quick": [], "thorough": []}), ("c09", {"quick": [], "thorough": ["thorough"]})],
         "technique": "contract-based deductive verification: Verus on price_db::convert_amount extracted from /repo (loop invariant: running sum of the holdings converted so far) over the contract of "
                      "PriceRepository::convert_single, itself extracted and proved in the same file over an uninterpreted rate table (the result of compute_price_table); bounded stand-in for Ledger::balance's conversion branches: twin sweep through the real Ledger::balance",
         "explanation": "PARTIAL.  Verus proves convert_amount, the function both conversion branches of Ledger::balance and `eval -X` go through: if every holding of the amount has a rate, the result holds exactly the "
